@@ -334,3 +334,30 @@ Example ex_failure_audience :
   option_map f_id (failure_lookup_wire bytes bytes_eqb hid fq fz s2 [1;97;0] 1 1 false) = None /\
   option_map f_id (failure_lookup_wire bytes bytes_eqb hid fq fz s2 [1;65;0] 1 1 true) = Some 8.
 Proof. vm_compute. repeat split; reflexivity. Qed.
+
+(* non-vacuity of the clock / backoff / cut-expiry theorems: a state recorded at 0 (initial 5 s, max 40 s) answers at
+   4999 ms and not at 5000 ms; renewed at 5000 ms it runs the second generation (10 s): answers at 14999 ms, not at
+   15000 ms; the ladder is 5, 10, 20, 40, 40 s; an expired cut stops answering while its sibling goes on *)
+Example ex_failure_clock :
+  let hid (p : bytes) := p in
+  let fq (k : bytes) := 1 :: k in
+  let fz (k : bytes) := 2 :: k in
+  let q := mk_q [97;46] 1 1 in
+  let s0 := record_fquestion bytes bytes_eqb hid fq 0 5000 40000 q false None 7 (empty_store bytes) in
+  let seen now s := option_map f_id (failure_lookup bytes bytes_eqb hid fq fz (set_failure_clock bytes now s) q false None) in
+  let s1 := record_fquestion bytes bytes_eqb hid fq 5000 5000 40000 q false None 7 (set_failure_clock bytes 5000 s0) in
+  seen 4999 s0 = Some 7 /\ seen 5000 s0 = None /\ seen 14999 s1 = Some 7 /\ seen 15000 s1 = None /\
+  map (backoff 5000 40000) [1; 2; 3; 4; 5; 9] = [5000; 10000; 20000; 40000; 40000; 40000].
+Proof. vm_compute. repeat split; reflexivity. Qed.
+
+Example ex_cut_expiry :
+  let s_cut (k : bytes) := 3 :: k in
+  let hid (p : bytes) := p in
+  let s0 := record_cut bytes bytes_eqb hid s_cut [97;46;116;46] 1 true 4 (empty_store bytes) in
+  let s1 := record_cut bytes bytes_eqb hid s_cut [98;46;116;46] 1 true 5 s0 in
+  let s2 := expire_cut bytes 4 s1 in
+  option_map c_id (cut_lookup bytes s1 (mk_q [120;46;97;46;116;46] 1 1)) = Some 4 /\
+  cut_lookup bytes s2 (mk_q [120;46;97;46;116;46] 1 1) = None /\
+  cut_lookup_wire bytes bytes_eqb hid s_cut s2 [1;120;1;97;1;116;0] 1 = None /\
+  option_map c_id (cut_lookup_wire bytes bytes_eqb hid s_cut s2 [1;120;1;98;1;116;0] 1) = Some 5.
+Proof. vm_compute. repeat split; reflexivity. Qed.
